@@ -21,3 +21,13 @@ Definition cmp_Z (c : cmp) (a b : Z) : bool :=
 (* the shape of the prefix test in DirectoryMatcher._check_path_match:
    path_str.startswith(dir_path)  or  path_str.startswith(dir_path.rstrip(c) + sep) *)
 Inductive prefix_form := PfBare | PfRstripSep (strip : ascii) (sep : string).
+
+(* PathResolver.normalize_path_string: `str(path)` followed by string methods with constant arguments, in
+   application order (the translator accepts exactly these methods and fails closed on anything else) *)
+Inductive norm_op :=
+| NReplace (a b : string)        (* .replace(a, b), a non-empty *)
+| NLstrip (chars : string)       (* .lstrip(chars) *)
+| NRstrip (chars : string)       (* .rstrip(chars) *)
+| NStrip (chars : string)        (* .strip(chars)  *)
+| NLower                         (* .lower(), ASCII letters *)
+| NRemovePrefix (s : string).    (* .removeprefix(s) *)
